@@ -17,6 +17,13 @@ def c0b() -> float:
     return 0.75
 
 
+def gauss_tail(x: float, k: float) -> float:
+    """A window far away from where the state lives: the exponential underflows, silently, to exactly 0.0."""
+    import numpy as np
+
+    return k * float(np.exp(-((x + 30.0) ** 2)))
+
+
 def lin1(a: float) -> float:
     return 0.7 * a + 0.3
 
